@@ -55,11 +55,11 @@ class Norm:
                 return self.rf(args[0]).pow(int(args[1][1]))
             if f.startswith('as:'):
                 return self.rf(args[0])
-            if f in ('min', 'max'):
+            if f in ('min', 'max', 'imin', 'imax'):
                 return self.fn(f, self.rf(args[0]), self.rf(args[1]), commutative=True)
             if f in ('sqrt', 'sin', 'cos', 'exp', 'acos', 'abs', 'to_radians', 'ln', 'tan', 'asin', 'floor'):
                 return self.fn(f, self.rf(args[0]))
-            if f in ('powf', 'rem_euclid', 'atan2', 'hypot'):
+            if f in ('powf', 'rem_euclid', 'atan2', 'hypot', 'idiv', 'irem'):
                 return self.fn(f, self.rf(args[0]), self.rf(args[1]))
             return self.atom('%s(%s)' % (f, ', '.join(self.canon_value(a) for a in args)))
         raise NotNumeric(repr(v)[:200])
